@@ -68,7 +68,7 @@ type FailureMode uint32
 
 const (
 	// SilentOnFailure ignores errors.
-	SilentOnFailure FailureMode = 0
+	SilentOnFailure FailureMode = iota
 	// LogOnFailure logs errors using printk.
 	LogOnFailure
 	// PanicOnFailure causes a kernel panic on error.
